@@ -268,7 +268,7 @@ def check_weight(run, it, fq, name, w, cond_now, ivar, ev):
         j = Lj.target
         oklen = eqv(w, ("call", "numpy.zeros", (("bin", "-", NP_, ("bin", "+", ivar, C(1))),), ()))
         okdom = eqv(Lj.iter, ("call", "builtins.range", (("sub", ("attr", w, "shape"), C(0)),), ()))
-        run.ob("R-ALIGN", fq, "tensor:length", oklen and okdom, "one weight per particle j > i, all filled", f"{show(w)[:60]} ; {show(Lj.iter)[:60]}",
+        run.ob("R-ALIGN", fq, "tensor:length", tri(oklen, okdom), "one weight per particle j > i, all filled", f"{show(w)[:60]} ; {show(Lj.iter)[:60]}",
                witness=None if oklen and okdom else "weights missing / surplus for the distance slice [i+1:]", loc=loc_of(it, f), sound=True)
         v = f.data["value"]
         A = B = None
